@@ -216,7 +216,11 @@ class ScriptedSpaceSim(AgentBasedSimulation):
     def get_obs(self, agent_id, **kwargs):
         i = self.order.index(agent_id)
         row = self.table[self.t % len(self.table)]
-        return S.sx_to_point(self.agents[agent_id].observation_space, row[i])
+        # the same logical observation, sometimes in a non-C-contiguous memory layout and with
+        # dict keys in another order (deterministic in (t, agent) so that twins agree)
+        import random as _random
+        return S.sx_to_point(self.agents[agent_id].observation_space, row[i],
+                             _random.Random(self.t * 7919 + i))
 
     def get_reward(self, agent_id, **kwargs):
         return self.t * 10 + self.order.index(agent_id)
